@@ -882,9 +882,12 @@ where
         if valid_bits % Word::BITS != 0 || valid_bits == usize::MAX {
             Err(None)
         } else {
-            let truncated_state = self.state ^ (State::one() << valid_bits);
-            self.bulk
-                .extend_from_iter(bit_array_to_chunks_truncated(truncated_state).rev())?;
+            // The marker bit sits at a word boundary, so the most significant chunk of `state`
+            // is exactly the marker word `1`. Skip it rather than clearing the marker bit first:
+            // truncating the cleared state would also drop payload words that are zero.
+            let mut chunks_rev = bit_array_to_chunks_truncated(self.state);
+            chunks_rev.next();
+            self.bulk.extend_from_iter(chunks_rev.rev())?;
             Ok(self.bulk)
         }
     }
